@@ -164,12 +164,91 @@ void perturb(ops::ThdmPoint& p, int near)
    switch (near % 8) { case 0: p.tb *= f; break; case 1: p.mA *= f; break; case 2: p.mH *= f; break; case 3: p.mHp *= f; break; case 4: p.zeta_l *= f; break; case 5: p.m122 *= f; break; case 6: p.lambda[0] *= f; p.zeta_u *= f; break; default: p.alpha_em_mz *= f; break; }
 }
 
+// ---- edge points: a valid point moved, along one parameter, right up to the border of the physical region (the last
+// double before a tachyon appears): one sfermion / Higgs mass is almost zero there.  Special-case branches (massless
+// states, regularisations, fallbacks) live at such borders and random points never come near them.  The border is found
+// by bisection with the library itself, on the main thread before the tasks start (prepare_edges), so that a run stays
+// a pure function of its plan text.
+std::map<uint64_t, ops::MssmPoint> g_edge_mssm;
+std::map<uint64_t, ops::ThdmPoint> g_edge_thdm;
+uint64_t g_edge_found = 0;
+
+template <class P, class Make, class Destroy>
+int classify_point(const P& p, Make make, Destroy destroy)
+{
+   // 0 valid, 1 tachyon / physical problem, 2 anything else
+   try { auto* m = make(p); destroy(m); return 0; }
+   catch (const gm2calc::EPhysicalProblem&) { return 1; }
+   catch (...) { return 2; }
+}
+
+template <class P, class Set, class Make, class Destroy>
+bool bisect_to_border(P& p, double x_ok, const std::vector<double>& bad_candidates, Set set, Make make, Destroy destroy)
+{
+   double lo = x_ok, hi = 0; bool have = false;
+   for (double xb : bad_candidates) { P q = p; set(q, xb); if (classify_point(q, make, destroy) == 1) { hi = xb; have = true; break; } }
+   if (!have) return false;
+   for (int it = 0; it < 200; ++it) {
+      const double mid = lo + (hi - lo) / 2;
+      if (mid == lo || mid == hi) break;
+      P q = p; set(q, mid);
+      const int c = classify_point(q, make, destroy);
+      if (c == 0) lo = mid; else if (c == 1) hi = mid; else return false;
+   }
+   set(p, lo);
+   return true;
+}
+
+ops::MssmPoint edge_mssm_point(uint64_t seed)
+{
+   sim::Rng r(seed ^ 0x9e3779b97f4a7c15ULL);
+   ops::MssmPoint p = mssm_point(seed);
+   p.mode = 0; p.force_output = false; p.MW = 80.385; p.MZ = 91.1876;
+   if (p.TB <= 0) p.TB = 10; if (p.Mu == 0) p.Mu = 400;
+   for (int i = 0; i < 3; ++i) { p.ml2[i] = std::abs(p.ml2[i]); p.mq2[i] = std::abs(p.mq2[i]); }
+   auto make = [](const ops::MssmPoint& q) { return ops::make_mssm(q); };
+   auto destroy = [](gm2calc::MSSMNoFV_onshell* m) { ops::destroy(m); };
+   if (classify_point(p, make, destroy) != 0) return p;
+   const int which = (int)r.below(10);
+   double* field = nullptr; bool soft = true;
+   auto sel = [&](ops::MssmPoint& q) -> double& {
+      switch (which) { case 0: return q.ml2[2]; case 1: return q.me2[2]; case 2: return q.mq2[2]; case 3: return q.mu2[2]; case 4: return q.md2[2]; case 5: return q.ml2[1]; case 6: return q.me2[1];
+                       case 7: return q.Ae33; case 8: return q.Au33; default: return q.Ad33; } };
+   (void)field; soft = which < 7;
+   const double x0 = sel(p);
+   std::vector<double> bad;
+   if (soft) bad = {0.0, -0.01 * x0, -0.1 * x0, -x0, -10 * x0, -100 * x0};
+   else { const double sgn = r.chance(0.5) ? 1 : -1; bad = {sgn * 1e4, sgn * 1e5, sgn * 1e6, sgn * 1e7, -sgn * 1e5, -sgn * 1e7}; }
+   if (bisect_to_border(p, x0, bad, [&](ops::MssmPoint& q, double x) { sel(q) = x; }, make, destroy)) ++g_edge_found;
+   return p;
+}
+
+ops::ThdmPoint edge_thdm_point(uint64_t seed)
+{
+   sim::Rng r(seed ^ 0x9e3779b97f4a7c15ULL);
+   ops::ThdmPoint p = thdm_point(seed);
+   p.gauge = true; p.force_output = false; if (p.yukawa_type < 1 || p.yukawa_type > 6) p.yukawa_type = 2; if (p.tb <= 0) p.tb = 3; p.m122 = std::abs(p.m122) + 1000;
+   const double lam[7] = {0.7, 0.6, 0.5, 0.4, 0.3, 0.2, 0.1};
+   for (int i = 0; i < 7; ++i) p.lambda[i] = lam[i];
+   auto make = [](const ops::ThdmPoint& q) { return ops::make_thdm(q); };
+   auto destroy = [](gm2calc::THDM* m) { ops::destroy(m); };
+   if (classify_point(p, make, destroy) != 0) return p;
+   const int which = (int)r.below(4);
+   auto sel = [&](ops::ThdmPoint& q) -> double& { switch (which) { case 0: return q.m122; case 1: return q.lambda[0]; case 2: return q.lambda[3]; default: return q.lambda[4]; } };
+   const double x0 = sel(p);
+   std::vector<double> bad = which == 0 ? std::vector<double>{0.0, -1e3, -1e4, -1e5, -1e6, -1e8} : std::vector<double>{-0.5, -2.0, -10.0, 10.0, 50.0, -50.0};
+   if (bisect_to_border(p, x0, bad, [&](ops::ThdmPoint& q, double x) { sel(q) = x; }, make, destroy)) ++g_edge_found;
+   return p;
+}
+
 /// build a model according to "mssm <seed> [near]" | "thdm <seed> [near]" | "slha <idx>"
 void build_model(Model& out, const std::string& kind, uint64_t arg, int near = 0)
 {
    out.reset();
    if (kind == "mssm") { ops::MssmPoint p = mssm_point(arg); perturb(p, near); out.m = ops::make_mssm(p); }
    else if (kind == "thdm") { ops::ThdmPoint p = thdm_point(arg); perturb(p, near); out.t = ops::make_thdm(p); }
+   else if (kind == "mssm_edge") { auto it = g_edge_mssm.find(arg); ops::MssmPoint p = it != g_edge_mssm.end() ? it->second : mssm_point(arg); perturb(p, near); out.m = ops::make_mssm(p); }
+   else if (kind == "thdm_edge") { auto it = g_edge_thdm.find(arg); ops::ThdmPoint p = it != g_edge_thdm.end() ? it->second : thdm_point(arg); perturb(p, near); out.t = ops::make_thdm(p); }
    else if (kind == "cmssm") { ops::MssmPoint p = mssm_point(arg); perturb(p, near); out.m = ops::make_mssm_c(p); out.via_c = true; }
    else if (kind == "cthdm") { ops::ThdmPoint p = thdm_point(arg); perturb(p, near); if (p.yukawa_type >= 1 && p.yukawa_type <= 6) { out.t = ops::make_thdm_c(p); out.via_c = true; } else out.t = ops::make_thdm(p); }
    else if (kind == "slha" && !g_corpus.empty()) { const CorpusFile& f = g_corpus[arg % g_corpus.size()]; ops::make_from_slha(f.bytes, f.type, &out.m, &out.t); }
@@ -374,7 +453,8 @@ std::vector<std::string> gen_plan(uint64_t seed, std::string* mode_out)
    for (int k = 0; k < nshared; ++k) {
       const bool use_slha = !g_corpus.empty() && r.chance(0.15);
       if (use_slha) { const uint64_t idx = r.below(g_corpus.size()); shared_kind[k] = g_corpus[idx].type == "thdm" ? 1 : 0; p.push_back("shared " + std::to_string(k) + " slha " + std::to_string(idx)); }
-      else { shared_kind[k] = r.chance(0.5) ? 1 : 0; const uint64_t sd = r.next() >> 1; seeds_used[shared_kind[k]].push_back(sd); p.push_back("shared " + std::to_string(k) + (shared_kind[k] ? " thdm " : " mssm ") + std::to_string(sd)); }
+      else { shared_kind[k] = r.chance(0.5) ? 1 : 0; const uint64_t sd = r.next() >> 1; const bool edge = r.chance(0.15); if (!edge) seeds_used[shared_kind[k]].push_back(sd);
+             p.push_back("shared " + std::to_string(k) + (shared_kind[k] ? (edge ? " thdm_edge " : " thdm ") : (edge ? " mssm_edge " : " mssm ")) + std::to_string(sd)); }
    }
    auto fn_for = [&](int kind) -> std::string {
       if (kind == 0) { const int n = ops::n_mssm_fns(); return ops::mssm_fn_name(r.chance(0.5) ? (int)r.below(17) % n : (int)r.below(n)); }
@@ -398,7 +478,8 @@ std::vector<std::string> gen_plan(uint64_t seed, std::string* mode_out)
          }
          const int sl = (int)r.below(NSLOTS);
          switch (what) {
-         case 0: { const int kind = r.chance(0.5) ? 1 : 0; slot_kind[sl] = kind; p.push_back(T + "mk " + std::to_string(sl) + (r.chance(0.25) ? (kind ? " cthdm " : " cmssm ") : (kind ? " thdm " : " mssm ")) + point_arg(kind)); } break;
+         case 0: { const int kind = r.chance(0.5) ? 1 : 0; slot_kind[sl] = kind; if (r.chance(0.12)) p.push_back(T + "mk " + std::to_string(sl) + (kind ? " thdm_edge " : " mssm_edge ") + std::to_string(r.next() >> 1));
+                   else p.push_back(T + "mk " + std::to_string(sl) + (r.chance(0.25) ? (kind ? " cthdm " : " cmssm ") : (kind ? " thdm " : " mssm ")) + point_arg(kind)); } break;
          case 1: { // copy
             if (r.chance(0.7)) { const int k = (int)r.below(nshared); slot_kind[sl] = shared_kind[k]; p.push_back(T + "cp " + std::to_string(sl) + " s " + std::to_string(k)); }
             else { const int j = (int)r.below(NSLOTS); if (slot_kind[j] >= 0 && j != sl) { slot_kind[sl] = slot_kind[j]; p.push_back(T + "cp " + std::to_string(sl) + " p " + std::to_string(j)); } else { slot_kind[sl] = 0; p.push_back(T + "mk " + std::to_string(sl) + " mssm " + std::to_string(r.next() >> 1)); } }
@@ -459,6 +540,17 @@ RunOut run_plan(const std::vector<std::string>& lines, uint64_t run_index)
    const int nt = (int)plan.tasks.size();
    out.ntasks = nt;
    if (nt == 0) return out;
+   g_prog.set(run_index, 0, "setup");
+   // edge points named by the plan are located first (bisection with the library, main thread)
+   g_prog.set(run_index, 0, "edge-search");
+   {
+      auto want = [&](const std::string& kind, uint64_t arg) {
+         if (kind == "mssm_edge" && !g_edge_mssm.count(arg)) g_edge_mssm[arg] = edge_mssm_point(arg);
+         if (kind == "thdm_edge" && !g_edge_thdm.count(arg)) g_edge_thdm[arg] = edge_thdm_point(arg);
+      };
+      for (auto& sh : plan.shared) want(sh.first, sh.second);
+      for (auto& task : plan.tasks) for (auto& op : task) if (op.size() >= 4 && op[0] == "mk") want(op[2], (uint64_t)std::strtoull(op[3].c_str(), nullptr, 0));
+   }
    g_prog.set(run_index, 0, "setup");
    // shared models are built by the main thread before any task starts
    for (int k = 0; k < NSHARED; ++k) { g_shared[k].reset(); g_shared_snap[k] = SharedSnap(); }
@@ -597,7 +689,7 @@ int exec_one(const char* planfile, bool trace)
    c.add("shared_accesses", o.sim.shared_accesses); c.add("guard_acquires", o.sim.guard_acquires); c.add("guard_waits", o.sim.guard_waits);
    c.add("mutex_locks", o.sim.mutex_locks); c.add("mutex_waits", o.sim.mutex_waits); c.add("atomic_ops", o.sim.atomic_ops); c.add("once_calls", o.sim.once_calls);
    c.add("clock_reads", o.sim.clock_reads); c.add("random_reads", o.sim.random_reads);
-   c.add("tasks_" + std::to_string(o.ntasks));
+   c.add("tasks_" + std::to_string(o.ntasks)); c.add("probe_edge_points_located_by_bisection", g_edge_found);
    if (o.discarded) c.add("discarded_unsupported_sync");
    if (o.sim.preempt_in_op > 0 && o.ntasks >= 2) c.add("runs_with_preemption_inside_operation");
    for (size_t i = 0; i < o.sim.probe_hits.size() && i < g_probe_owner.size(); ++i)
